@@ -34,15 +34,16 @@ GEN: list = []
 RULE = (
     "tree stream: 0-7 entries over a pool of escaping-relevant name parts (spaces, quotes, backslashes, "
     "control characters, DEL, non-ASCII, boundary BMP code points, non-BMP), depth 1-3, file/dir name "
-    "clashes, hash names md5 / md5-dos2unix / sha256 / etag / empty / None, random Meta, overwriting "
-    "re-insertions, 3 random insertion orders each, every prefix of every key plus absent prefixes; a "
+    "clashes, sibling names whose tuple order differs from their path order (d / d.e, a / a-b, ...), non-NFC names "
+    "with their composed twins, hash names md5 / md5-dos2unix / sha256 / etag / empty / None, random Meta, overwriting "
+    "re-insertions, ascending and descending key-tuple order plus 3 random insertion orders each, every prefix of every key plus absent prefixes; a "
     "malformed sub-stream adds lone surrogates, '/' inside a part, empty parts and the empty key. "
     "history stream: 2-5 keys (a path is a file or a directory), 5-14 operations on ONE Tree object mixing add of a new key, "
     "re-add of an existing key with a new digest, get_obj / filter on prefixes of present keys (and absent ones), "
     "iteritems; non-trivial when a query follows a replacement that follows a query (the window in which a cached "
     "trie could be stale). "
     "build stream: real directories (0-9 files, sizes 0-48, nested, odd names) x checksum_jobs "
-    "{None,1,2,4} x large_file_threshold {2**20,10,0} x state {none,cold,warm,foreign,poisoned} with "
+    "{None,1,2,4} x large_file_threshold {2**20,10,0} x state {none,cold,warm,foreign,poisoned,raced (warmed by a build during which a file was replaced)} with "
     "randomised per-file hashing delays so that the pool delivers out of order. A tree case is "
     "non-trivial when it has >= 2 entries; a build case when >= 1 file was hashed or served by the state."
 )
@@ -66,6 +67,13 @@ IMPORTS = ("From Coq Require Import NArith List.\n"
 PARTS = ["a", "b", "c", "d", "\u00e9", "a b", 'a"b', "a\\b", "\x01x", "\x7f", "\u65e5\u672c", "\U0001F600", "A",
          "a-b", "x.dir", "\u00fa", "\ud7ff", "\ue000", "\uffff", "\U00010000", "\U0010ffff", "\n", "\t", " ",
          "\x1f", "~", "\x80", "0", "relpath", "md5"]
+# sibling names where one is a prefix of the other followed by a character that sorts before '/':
+# the order of the key tuples ('d','x') < ('d.e','y') is the opposite of the order of the joined paths
+SIBLINGS = [("d", "d.e"), ("a", "a-b"), ("a", "a b"), ("data", "data.v2"), ("x", "x!"), ("m", "m#1"), ("a", "a.b")]
+# canonically equivalent but different names: decomposed (base + combining mark, Hangul jamo) / composed (NFC)
+TWINS = [("e\u0301", "\u00e9"), ("a\u0308", "\u00e4"), ("o\u0323", "\u1ecd"), ("\u1112\u1161\u11ab", "\ud55c"),
+         ("cafe\u0301.txt", "caf\u00e9.txt"), ("A\u030a", "\u00c5")]
+PARTS += [x for pair in SIBLINGS + TWINS for x in pair if x not in PARTS]
 BAD_PARTS = ["a/b", "", "/", "\ud83d", "\ude00", "\ud83d\ude00", "x/", "\udc80"]
 HEX = "0123456789abcdef"
 
@@ -262,7 +270,9 @@ def tree_oracle(case):
         if oid0 != impl.md5hex(want) + ".dir":
             problems.append(("C03:oid-not-md5-of-listing", f"oid {oid0} is not md5(canonical listing).dir"))
     if no_overwrite and distinct_rp:
-        for order in case.get("perms", []):
+        idx = sorted(range(len(adds)), key=lambda i: tuple(adds[i]["key"]))
+        # ascending and descending order of the key tuples are always among the insertion orders tried
+        for order in [idx, idx[::-1], *case.get("perms", [])]:
             t = _mk_tree(adds, order)
             b = t.as_bytes()
             t.digest()
@@ -479,6 +489,10 @@ def gen_meta(rng):
 def gen_tree_case(rng, bad=False, max_entries=7):
     n = rng.choice([0, 1, 2, 2, 3, 3, 4, 4, 5, 6, max_entries])
     pool = rng.sample(PARTS, 5)
+    if rng.random() < 0.2:
+        pool[:2] = rng.choice(SIBLINGS)
+    if rng.random() < 0.15:
+        pool[2:4] = rng.choice(TWINS)
     if bad:
         pool += rng.sample(BAD_PARTS, 3)
     keys = []
@@ -579,6 +593,17 @@ def near_collision_cases(rng):
         [(["a\n"], h1)], [(["a\\n"], h1)], [(["\x7f"], h1)], [(["\\u007f"], h1)],
         [(['", "md5": "' + h2], h1)],
     ]
+    h3 = "3" * 32
+    for lo, hi in SIBLINGS:  # given in ascending tuple order; the listing order is the opposite
+        base.append([([lo, "x"], h1), ([hi, "y"], h2)])
+        base.append([([lo, "x"], h1), ([lo, "z"], h3), ([hi, "y"], h2)])
+        base.append([(["p", lo, "x"], h1), (["p", hi, "y"], h2)])
+    for dec, comp in TWINS:  # same directory content up to the spelling of one name: different sets
+        base.append([(["docs", dec], h1)])
+        base.append([(["docs", comp], h1)])
+        base.append([(["docs", dec], h1), (["docs", comp], h2)])
+        base.append([([dec, "f"], h1)])
+        base.append([([comp, "f"], h1)])
     out = []
     for ents in base:
         adds = [{"key": k, "hash": ["md5", h], "meta": None} for k, h in ents]
@@ -689,6 +714,10 @@ def run_history(ops):
 
 def gen_history(rng):
     pool = rng.sample(["a", "b", "c", "d", "e f", "\u00e9", 'q"', "x.dir", "\U0001F600"], 4)
+    if rng.random() < 0.3:
+        pool[:2] = rng.choice(SIBLINGS)
+    if rng.random() < 0.2:
+        pool[2:4] = rng.choice(TWINS)
     keys = []
     while len(keys) < rng.choice([2, 3, 3, 4, 5]):
         if keys and rng.random() < 0.6:
@@ -789,6 +818,13 @@ def fixed_histories():
                                     a(["s", "e", "c"], h[2]), a(["s", "a"], h[3]),
                                     {"op": "get_obj", "prefix": ["s", "e"]}, {"op": "get_obj", "prefix": ["s"]},
                                     {"op": "filter", "prefix": ["s", "e"]}]},
+        # sibling names added in ascending tuple order (= descending path order), and in the other order
+        {"kind": "history", "ops": [a(["d", "x"], h[0]), a(["d.e", "y"], h[1]), {"op": "get_obj", "prefix": []},
+                                    a(["d.e", "y"], h[2]), {"op": "get_obj", "prefix": []}]},
+        {"kind": "history", "ops": [a(["a-b", "y"], h[1]), a(["a", "x"], h[0]), {"op": "get_obj", "prefix": []},
+                                    {"op": "items"}]},
+        {"kind": "history", "ops": [a(["docs", "cafe\u0301.txt"], h[0]), a(["docs", "caf\u00e9.txt"], h[1]),
+                                    {"op": "get_obj", "prefix": ["docs"]}, {"op": "filter", "prefix": ["docs"]}]},
         {"kind": "history", "ops": [a(["x"], h[0]), {"op": "items"}, a(["x"], h[1]), {"op": "items"},
                                     {"op": "get_obj", "prefix": []}, {"op": "get_obj", "prefix": ["x"]}]},
     ]
@@ -840,6 +876,18 @@ def run_build(ctx, files, cfg, workdir, delays):
     spelled = src + cfg.get("spell", "")  # the staged directory as the caller writes it: "<dir>", "<dir>/", "<dir>//"
     rec = _Rec()
     o_bf, o_gh, o_hf, o_hash = bmod._build_files, bmod._get_hashes, bmod._hash_files, bmod.hash_file
+    o_wf = bmod._walk_files
+
+    def p_walk_files(fs, path, ignore=None):
+        """the order in which a file system lists directories and files is arbitrary: impose the ascending /
+        descending order of the key tuples when the configuration asks for it (otherwise the real one)"""
+        items = list(o_wf(fs, path, ignore=ignore))
+        mode = cfg.get("walk")
+        if mode:
+            rev = mode == "desc"
+            items.sort(key=lambda it: tuple(it[0][len(path):].split(os.sep)), reverse=rev)
+            items = [(root, dict(sorted(fi.items(), reverse=rev))) for root, fi in items]
+        yield from items
 
     def p_build_files(root, file_infos, fs, name, **kw):
         kw["large_file_threshold"] = cfg["threshold"]
@@ -880,6 +928,27 @@ def run_build(ctx, files, cfg, workdir, delays):
         odb = impl.local_odb(os.path.join(workdir, "cache"), **({"state": st} if st else {}))
         if state_mode == "warm":
             bmod.build(odb, src, localfs, "md5", checksum_jobs=cfg["jobs"])
+        elif state_mode == "raced":
+            # an earlier build during which a writer replaced one file right after it had been hashed (and
+            # before the state was saved); the directory is quiescent again when the observed build runs.
+            # The replaced file had another size, so that the outcome cannot depend on timestamp granularity.
+            victim = os.path.join(src, *cfg["victim"].split("/"))
+            final = _content(files[cfg["victim"]])
+            with open(victim, "wb") as f:
+                f.write(final + b"!")
+
+            def racing_hash_file(path, *a, **kw):
+                res = o_hash(path, *a, **kw)
+                if path == victim:
+                    with open(victim, "wb") as f:
+                        f.write(final)
+                return res
+
+            bmod.hash_file = racing_hash_file
+            try:
+                bmod.build(odb, src, localfs, "md5", checksum_jobs=cfg["jobs"])
+            finally:
+                bmod.hash_file = o_hash
         elif state_mode in ("foreign", "poisoned"):
             items = []
             for rel in files:
@@ -891,10 +960,12 @@ def run_build(ctx, files, cfg, workdir, delays):
             st.save_many(items, localfs)
         bmod._build_files, bmod._get_hashes, bmod._hash_files, bmod.hash_file = (
             p_build_files, p_get_hashes, p_hash_files, p_hash_file)
+        bmod._walk_files = p_walk_files
         try:
             _, meta, obj = bmod.build(odb, spelled, localfs, "md5", checksum_jobs=cfg["jobs"])
         finally:
             bmod._build_files, bmod._get_hashes, bmod._hash_files, bmod.hash_file = o_bf, o_gh, o_hf, o_hash
+            bmod._walk_files = o_wf
     finally:
         if st is not None:
             st.close()
@@ -942,6 +1013,10 @@ BUILD_MODEL = (
 def gen_dir(rng, max_files=9):
     n = rng.choice([0, 1, 2, 3, 4, 5, 6, max_files])
     pool = [p for p in rng.sample(PARTS, 8)]
+    if rng.random() < 0.3:
+        pool[:2] = rng.choice(SIBLINGS)
+    if rng.random() < 0.25:
+        pool[2:4] = rng.choice(TWINS)
     files = {}
     dirs = set()
     tries = 0
@@ -982,12 +1057,20 @@ def run_build_stream(ctx, dirs, per_dir):
         # always one config that sends everything non-empty to the pool with several workers
         if not any(c["threshold"] == 0 and c["jobs"] in (2, 4) and c["state"] in ("none", "cold", "foreign") for c in chosen):
             chosen.append({"jobs": 4, "threshold": 0, "state": "cold"})
+        # ... walked in ascending (always) and in descending order of the key tuples
+        for walk in (("asc", "desc") if per_dir is None or ctx.rng.random() < 0.5 else ("asc",)):
+            base = dict(ctx.rng.choice(cfgs))
+            base["walk"] = walk
+            chosen.append(base)
         # the same directory spelled with trailing separators must get the same identifier
-        for spell in ("/", "//"):
+        for spell in (("/", "//") if per_dir is None else (ctx.rng.choice(["/", "//"]),)):
             base = dict(ctx.rng.choice(cfgs))
             base["spell"] = spell
             chosen.append(base)
         if files:
+            # a cache warmed by a build that raced with a writer
+            chosen.append({"jobs": ctx.rng.choice([None, 1, 2]), "threshold": ctx.rng.choice([2 ** 20, 10, 0]),
+                           "state": "raced", "victim": ctx.rng.choice(sorted(files))})
             poison = ctx.rng.sample(sorted(files), max(1, len(files) // 3))
             chosen.append({"jobs": ctx.rng.choice([None, 2]), "threshold": ctx.rng.choice([0, 10]),
                            "state": "poisoned", "poison": poison})
@@ -1007,6 +1090,11 @@ def run_build_stream(ctx, dirs, per_dir):
             ctx.case(case, nontrivial=bool(files))
             ctx.count("build:state=" + cfg["state"])
             ctx.count("build:path-spelling=<dir>" + cfg.get("spell", ""))
+            ctx.count("build:walk-order=" + (cfg.get("walk") or "as-listed-by-the-file-system"))
+            keys_in_order = [tuple(d["rel"] + [fn]) for d in obs["walk"] for fn in d["fnames"]]
+            rps = ["/".join(k) for k in keys_in_order]
+            if len(keys_in_order) > 1 and keys_in_order == sorted(keys_in_order) and rps != sorted(rps):
+                ctx.count("build:walk-ascending-in-tuples-but-not-in-paths")
             if cfg.get("spell") and any(d["rel"] for d in obs["walk"]):
                 ctx.count("build:trailing-separator-with-nested-directories")
             ctx.count(f"build:jobs={cfg['jobs']}")
@@ -1186,9 +1274,19 @@ def run(ctx):
         {"a": "61" * 20, "b": "62" * 20},
         {"d/x": "01" * 12, "d/y": "02" * 12, "d/z": "03" * 30, "e/w": "04" * 11, "top": ""},
     ]
+    special_dirs = [
+        # sibling directories whose tuple order differs from the order of their paths
+        {"d/x": "01" * 3, "d.e/y": "02" * 3},
+        {"a/f": "03" * 3, "a-b/g": "04" * 3, "a b/h": "05" * 3},
+        {"p/data/1": "06", "p/data.v2/1": "07", "p/data/2": ""},
+        # a directory holding a name in decomposed and in composed (NFC) form: two different files
+        {"docs/cafe\u0301.txt": "08" * 4, "docs/caf\u00e9.txt": "09" * 4},
+        {"e\u0301/f": "0a", "\u00e9/f": "0b", "\u1112\u1161\u11ab": "0c", "\ud55c": "0d"},
+    ]
     n_dirs = ctx.n(5, 18)
     dirs = corpus_dirs + fixed_dirs + [gen_dir(ctx.rng) for _ in range(n_dirs)]
-    b_items = run_build_stream(ctx, dirs, per_dir=ctx.n(7, 48) if ctx.tier == "quick" else None)
+    b_items = run_build_stream(ctx, dirs, per_dir=ctx.n(5, 48) if ctx.tier == "quick" else None)
+    b_items += run_build_stream(ctx, special_dirs, per_dir=ctx.n(1, 6))
 
     md5_items, json_items = run_base_stream(ctx, ctx.n(24, 150), ctx.n(40, 400))
 
